@@ -14,16 +14,21 @@ CONFIG = dict(
                "theorem double_completion_runs_final_twice); tasks/final only run inside posted closures; an invoked task that has not completed - in "
                "particular an unset (nil) entry of the task list, whose call panics under doTask's recover - stalls the chain: no later task, nothing queued, "
                "no final (uncompleted_task_stalls_chain); a chain whose scheduler is stopped at an arbitrary point refines the plain chain model (callback "
-               "calls after Stop are dropped by Post), so every safety theorem holds for it, and final can then be lost (stop_before_completion_loses_final). "
+               "calls after Stop are dropped by Post), so every safety theorem holds for it, and final can then be lost (stop_before_completion_loses_final); "
+               "a Builder object used for several chains, modelled over Go slices (shared backing array, in-place append below cap, reallocation): for every "
+               "sequence of further Next/Do calls the task window of every chain already started is unchanged (started_chain_keeps_its_tasks; the variant "
+               "that truncates the builder's slice in Do overwrites it: reset_in_place_overwrites_started_chain). "
                "The facts the scheduler theorems depend on (selfBlockDefend = false and assigned nowhere, QueueSize, recover in doTask/Post) are "
                "re-extracted from the Go source on every run; the models are tied to the code by running the real Sche with its Handler() and with a "
-               "RunService, 1-8 concurrent posters, fill levels 0/998/999/1000/1500 and Stop at scripted points, and real waterfall chains of length 0-6 (nil steps at every position, task lists that are adjacent "
-               "windows of one backing array with spare capacity), each op run to quiescence in a synctest bubble; the property predicate is evaluated on the implementation's own execution logs.",
+               "RunService, 1-8 concurrent posters, fill levels 0/998/999/1000/1500 and Stop at scripted points, closures posted from and panicking at the bottom of a 120-frame call chain (before and after Stop), and real waterfall chains of length 0-6 (nil steps at every position, task lists that are adjacent "
+               "windows of one backing array with spare capacity, Builder objects used for several chains while the earlier ones are pending / queued / done, every task body reporting the chain instance - callback object - that invoked it), each op run to quiescence in a synctest bubble; the property predicate is evaluated on the implementation's own execution logs.",
     level_note="Partial: Go channel semantics (bounded FIFO, atomic send, blocked senders resumed in any order) and the Go scheduler are assumed, not "
                "verified; goroutine identity is observed by the harness (goroutine ids), not proved; closures still queued at Stop are outside the "
                "statement; the self-post deadlock on a full channel is not expressible in the scheduler model (its consume step stays enabled) and is "
                "an assumption; one consumer per scheduler is assumed (two live run services created with the same explicit name share one channel - not "
-               "modelled); sche.MultiSelector is exercised by the RunService runs but not modelled. The theorems are about the models; the differential run ties them to the code on sampled schedules only.",
+               "modelled); sche.MultiSelector is exercised by the RunService runs but not modelled; the slice-level Builder model (BMem) is tied to the code only "
+               "through the value-level builder the driver executes (a reused builder hands each chain everything it holds), its growth policy (2*cap+1) is arbitrary - the theorem holds for any; "
+               "the content of the recover handlers (logging, stack report) is not modelled, only that they return - exercised with shallow and deep (> 4 KB) stacks. The theorems are about the models; the differential run ties them to the code on sampled schedules only.",
     gen=["cd harness && go1.26 run ./extract/c15 -out ../lean/Cell2v/Gen/C15Consts.lean"],
     lean_targets=["Cell2v.Props.C15", "modeld_c15"],
     driver="modeld_c15",
@@ -33,7 +38,8 @@ CONFIG = dict(
                        "post_after_stop_is_harmless", "overflow_path_breaks_fifo", "tasks_in_order", "args_threaded",
                        "error_jumps_to_final", "final_at_most_once", "final_exactly_once", "everything_via_post",
                        "uncompleted_task_stalls_chain", "stopping_scheduler_refines_chain", "final_at_most_once_with_stop", "completion_after_stop_is_dropped",
-                       "stop_before_completion_loses_final", "double_completion_runs_final_twice", "anonymous_service_gets_own_scheduler", "same_name_same_scheduler", "name_reused_after_stop_gets_fresh_scheduler"],
+                       "stop_before_completion_loses_final", "double_completion_runs_final_twice",
+                       "started_chain_keeps_its_tasks", "binv_reachable", "reset_in_place_overwrites_started_chain", "anonymous_service_gets_own_scheduler", "same_name_same_scheduler", "name_reused_after_stop_gets_fresh_scheduler"],
     harness_pkg="./c15",
     mode="accept",
     reset_prefix="reset",
@@ -52,14 +58,16 @@ CONFIG = dict(
     },
     trivial=r"^(-|ok|ok cap=\d+|bad-op|exec=- .*)?$",
     rule="one PRNG (VERIF_SEED). Scheduler cases: real sche.Sche consumed by its own Handler() or by a runservice.RunService, 1-8 poster goroutines "
-         "posting numbered closures (normal / panicking / consumer-parking) in concurrent bursts, queue pre-filled to 0/3/40/998/999/1000/1500 while the "
+         "posting numbered closures (normal / panicking / panicking at the bottom of a 120-frame call chain and posted from one - stack report beyond 4 KB / consumer-parking) in concurrent bursts, queue pre-filled to 0/3/40/998/999/1000/1500 while the "
          "consumer is delayed or parked, Stop at a random point (before start, while posters are blocked on the full channel, while running), posts after "
          "Stop; every op runs to quiescence in a testing/synctest bubble and reports the execution log, the executing goroutine, len(chanTask) and per "
          "poster ok/nil/blocked/panicked counts; the log must be accepted by the model (nondeterministic interleavings) and satisfy the property predicate. "
          "Waterfall cases: chains of length 0-6 through waterfall.Sche / Builder, every error position, task completion sync / from another goroutine / "
          "later via goroutine, caller, timer or a posted closure / never / twice / panicking before or after completing / unset (a nil entry of the task "
          "list, any position, Sche and Builder), task lists allocated on their own or carved as adjacent windows out of one shared backing array "
-         "(mem=arena: spare capacity reaching into the next chain's tasks), several chains interleaved, "
+         "(mem=arena: spare capacity reaching into the next chain's tasks), one of up to three Builder objects per case used again (bld=k: Next.. Final Do on "
+         "top of what it holds) while its earlier chains are pending on a task, queued behind the parked consumer or done - every task event carries the "
+         "chain instance (ordinal of the callback object it was handed), so a task body run by the wrong chain is seen -, several chains interleaved, "
          "chains started from the test goroutine / a foreign goroutine / a closure on the consumer, with the consumer idle or parked behind "
          "0/3/997/998/999 queued closures (the starter then blocks in Post on the full channel), each task checked for a usable callback, "
          "completions after Stop; events compared one by one with the model. Multi-service cases: up to 8 run services, anonymous "
@@ -74,10 +82,11 @@ CONFIG = dict(
          "sync/goroutine/later, arena-window chains back to back idle and parked, every fill level x both consumers) runs first. Non-trivial = an op on which at least one closure/task/final ran; distinct = distinct (op, observation) pairs.",
     trusted_base=[
         "Lean 4.33.0 kernel; axioms of every property theorem audited on each run (allowed: propext, Classical.choice, Quot.sound)",
-        "hand-written models lean/Cell2v/Model/Sche.lean, Model/Waterfall.lean (Chain, and SChain = chain + Stop, used by the driver for every callback call) and Model/ScheMgr.lean (scheduler registry), tied to the Go code by the differential run of this check (harness/c15 + modeld_c15)",
+        "hand-written models lean/Cell2v/Model/Sche.lean, Model/Waterfall.lean (Chain, and SChain = chain + Stop, used by the driver for every callback call; Builder, used by the driver for every bld= chain; BMem = Builder over Go slices, theorems only) and Model/ScheMgr.lean (scheduler registry), tied to the Go code by the differential run of this check (harness/c15 + modeld_c15)",
         "translator harness/extract/c15 (go/ast, ~250 lines): selfBlockDefend initial value and absence of assignments, QueueSize, chanTask capacity, recover() in doTask and Post",
         "Go channel semantics: bounded FIFO buffer, a send is one atomic step, a send on a closed channel panics, blocked senders resume in some order",
-        "testing/synctest (go1.26) quiescence detection; goroutine ids parsed from runtime.Stack by the harness",
+        "testing/synctest (go1.26) quiescence detection; goroutine ids parsed from runtime.Stack by the harness; chain instance = address of the callback closure (read through unsafe, closures kept alive for the case)",
+        "Go slice semantics as modelled in BMem (append writes in place iff len < cap, otherwise copies to a fresh array)",
         "harness canonicalisation (goroutine ids mapped to consumer/poster/main/other labels)",
     ],
     assumptions=[
